@@ -20,7 +20,7 @@
       - the abstract map is a map: strictly sorted, one entry per key ([C01_abstract_is_map]).
     The set is the instance [V = unit] (its twins are stated at the end). *)
 From Coq Require Import List NArith Bool Sorted.
-From PT Require Import Refine Refine2 EntryApi InstEntry Arena ArenaProps Arena2 ArenaRefine.
+From PT Require Import Refine Refine2 EntryApi InstEntry Arena ArenaProps Arena2 ArenaRefine ArenaOuts.
 From PT.Properties Require Import Common.
 Import ListNotations.
 
@@ -322,6 +322,23 @@ Theorem C01_arena_run_refines (ops : list (Arena2.aop2 pfx V)) :
              a_entries pfx V am = Ok (Refine.a_run pfx V (kbits w) (map (to_hop pfx V) ops)).
 Proof. exact (arena_C01_run_refines pfx V _ _ _ _ _ _ _ _ _ (laws w fl Hw) ops). Qed.
 
+(** RETURN VALUES at the arena level (ArenaOuts.v): the arena-level [insert] / [remove] /
+    [remove_keep_tree] return the value stored under the key of [q] before the call ([a_get es q] on the
+    iteration [es] before the call) and leave an arena that iterates the abstract result. *)
+Theorem C01_arena_insert_returns (am : Arena.amap pfx V) es q x :
+  areach pfx V (peq w) (contains w fl) (is_bit_set w) plen (lcp w fl) pzero (okp w) am -> okp w q -> a_entries pfx V am = Ok es ->
+  exists am', Arena.a_insert pfx V (peq w) (contains w fl) (is_bit_set w) plen (lcp w fl) am q x = Ok (am', a_get es q) /\
+              a_entries pfx V am' = Ok (Refine.a_insert pfx V (kbits w) es q x).
+Proof. exact (arena_C01_insert_returns pfx V _ _ _ _ _ _ _ _ _ (laws w fl Hw) am es q x). Qed.
+
+Theorem C01_arena_remove_returns (am : Arena.amap pfx V) es q :
+  areach pfx V (peq w) (contains w fl) (is_bit_set w) plen (lcp w fl) pzero (okp w) am -> okp w q -> a_entries pfx V am = Ok es ->
+  (exists am', Arena.a_remove pfx V (peq w) (contains w fl) (is_bit_set w) plen am q = Ok (am', a_get es q) /\
+               a_entries pfx V am' = Ok (Refine.a_without pfx V (kbits w) es q)) /\
+  (exists am', Arena.a_remove_keep_tree pfx V (peq w) (contains w fl) (is_bit_set w) plen am q = Ok (am', a_get es q) /\
+               a_entries pfx V am' = Ok (Refine.a_without pfx V (kbits w) es q)).
+Proof. exact (arena_C01_remove_returns pfx V _ _ _ _ _ _ _ _ _ (laws w fl Hw) am es q). Qed.
+
 End C01.
 
 (* ---------------------------------------------------------------------------------------- *)
@@ -448,3 +465,5 @@ Print Assumptions C01_arena.
 Print Assumptions C01_arena_get.
 Print Assumptions C01_arena_step_refines.
 Print Assumptions C01_arena_run_refines.
+Print Assumptions C01_arena_insert_returns.
+Print Assumptions C01_arena_remove_returns.
